@@ -52,11 +52,13 @@ def gen_plan(rng):
     # the caller keeps failed loads' exceptions in garbage cycles; automatic collection is then
     # off and the collector runs at one seeded line event of a later load ("gc" fault)
     cfg["hold_exc"] = rng.choice([0.0, 0.0, 0.5, 1.0])
-    cfg["non_ascii"] = rng.random() < 0.25                    # bytes >= 0x80 in included files
+    cfg["non_ascii"] = rng.random() < 0.3                     # bytes >= 0x80 in included files
     steps = []
     feats = cfg["features"]
     libs = []   # {"name","path","modes","params"}
     libdirs = ["lib", "lib/deep", "", "other"]
+
+    nonascii_writes = [0]
 
     def write_lib(j, broken=False):
         name = ["Sub", "Inner", "Lib"][j]
@@ -66,7 +68,7 @@ def gen_plan(rng):
             d = rng.choice(libdirs)
             path = posixpath.join(d, name.lower() + ".xbb")
         nested = None
-        if j > 0 and rng.random() < 0.5:
+        if j > 0 and rng.random() < 0.7:
             n0 = libs[0]
             nested = dict(n0)
             nested["inc"] = rng.choice([posixpath.relpath(n0["path"], posixpath.dirname(path) or "."),
@@ -76,7 +78,8 @@ def gen_plan(rng):
             # written byte for byte (latin-1): either a lone 0xE9 (not valid UTF-8) in a comment
             # or the two bytes of a UTF-8 'e acute' inside a string argument
             lines = text.rstrip("\n").split("\n")
-            if rng.random() < 0.5:
+            nonascii_writes[0] += 1
+            if nonascii_writes[0] % 2 == 1:
                 lines.insert(rng.randint(3, len(lines)), "# caf\u00e9")
             else:
                 lines.append('Annotate("d\u00c3\u00a9tection") | %d' % info["mode_list"][0])
@@ -94,7 +97,7 @@ def gen_plan(rng):
         steps.append({"op": "write", "path": path, "text": text})
 
     if "includes" in feats:
-        for j in range(rng.randint(1, 2)):
+        for j in range(2 if rng.random() < 0.65 else 1):
             write_lib(j)
 
     earlier = []           # (script, delivery, maindir, libs) of earlier valid loads
@@ -123,7 +126,10 @@ def gen_plan(rng):
         if rng.random() < cfg["env_rate"]:
             k = rng.random()
             if k < 0.4 and libs:
-                write_lib(rng.randrange(len(libs)), broken=rng.random() < 0.4)
+                # the first library is the one other libraries nest: rewriting it while its
+                # includer stays byte-identical is the interesting case
+                which = 0 if (len(libs) > 1 and rng.random() < 0.7) else rng.randrange(len(libs))
+                write_lib(which, broken=rng.random() < 0.4)
             elif k < 0.55 and libs:
                 steps.append({"op": "unlink", "path": rng.choice(libs)["path"]})
             else:
@@ -132,6 +138,8 @@ def gen_plan(rng):
         delivery = rng.choice(["loads", "loads", "load_abs", "load_rel"])
         maindir = rng.choice(["app", "", "app/sub"])
         use_libs = libs_for(delivery, maindir) if libs and rng.random() < 0.7 else []
+        if len(use_libs) > 1 and rng.random() < 0.5:
+            use_libs = [rng.choice(use_libs)]       # not every load includes every library
         planted = None
         if prev_bad and rng.random() < 0.6:
             lib = rng.choice(use_libs) if use_libs else None
